@@ -172,6 +172,10 @@ def DecLemmas.BuildArgsPy (a : BuildArgs) : Prop :=
   PyStr a.authority ∧ (∀ t, a.user = some t → PyStr t) ∧ (∀ t, a.password = some t → PyStr t) ∧
   PyStr a.path ∧ QArgPy a.query ∧ PyStr a.queryString ∧ PyStr a.fragment
 
+/-- the scheme is lowered without the quoting backend (`build` lowers it since fix e21485a) -/
+theorem DecLemmas.lowerAny_backend (o : Oracles) (s : Str) :
+    lowerAny { b := .py, o := o } s = lowerAny { b := .c, o := o } s := rfl
+
 /-- `URL.build(...)`, both modes -/
 theorem C05_build_backend (o : Oracles) (a : BuildArgs) (ha : BuildArgsPy a) :
     build { b := .py, o := o } a = build { b := .c, o := o } a := by
@@ -182,7 +186,7 @@ theorem C05_build_backend (o : Oracles) (a : BuildArgs) (ha : BuildArgsPy a) :
       makeNetloc (q { b := .c, o := o } Gen.QUOTER) a.user a.password h port enc :=
     fun h port enc => makeNetloc_congr _ _ _ _ _ _ _ (fun t ht => hQ t (huser t ht)) (fun t ht => hQ t (hpw t ht))
   unfold build
-  simp only [getStrQuery_backend a.query hq, hmk, buildPreEncoded,
+  simp only [getStrQuery_backend a.query hq, hmk, buildPreEncoded, lowerAny_backend o a.scheme,
     q_backend o Gen.PATH_QUOTER (by decide) a.path hpath,
     q_backend o Gen.FRAGMENT_QUOTER (by decide) a.fragment hfrag]
   have hnp : ∀ np : NetlocParts, splitNetloc o a.authority = .ok np → ∀ h port enc,
